@@ -128,8 +128,19 @@ def check_globals(ctx, R="C14.globals"):
         elif swaps:
             ctx.finding(R, r, f"{resetter} 2-D restore", f"veneer.{fname} swaps {sorted(swaps)} for 2-D mode but {resetter} does not restore {sorted(swaps - backs)}")
     # behaviour namespaces: rebound in beginSimulation, restored in endSimulation
-    b, e = unparse(funcs["beginSimulation"]), unparse(funcs["endSimulation"])
-    if "namespace.update(sampledNS)" in b and "namespace.update(originalNS)" in e and "namespace.clear()" in e:
+    def _ns_update(f):
+        """index (1 = sampled, 2 = original) of the namespace a loop over behaviorNamespaces installs, after clearing"""
+        for l in walk_local(f):
+            if isinstance(l, ast.For) and unparse(l.iter).endswith(".behaviorNamespaces.items()") and isinstance(l.target, ast.Tuple) and len(l.target.elts) == 2 and isinstance(l.target.elts[1], ast.Tuple) and len(l.target.elts[1].elts) == 3:
+                trio = [unparse(x) for x in l.target.elts[1].elts]
+                body = [unparse(x) for x in l.body]
+                if f"{trio[0]}.clear()" in body:
+                    for k in (1, 2):
+                        if f"{trio[0]}.update({trio[k]})" in body and body.index(f"{trio[0]}.clear()") < body.index(f"{trio[0]}.update({trio[k]})"):
+                            return k
+        return None
+
+    if _ns_update(funcs["beginSimulation"]) == 1 and _ns_update(funcs["endSimulation"]) == 2:
         ctx.ok(R, funcs["endSimulation"], "behaviour namespaces rebound for the simulation are restored from originalNS")
     else:
         ctx.finding(R, funcs["endSimulation"], "behaviour namespaces", "endSimulation no longer restores the module namespaces rebound by beginSimulation")
@@ -271,12 +282,13 @@ def check_cleanup(ctx, R="C14.cleanup"):
     # proxies
     co = model.func(SI, "Simulation._createObject")
     t = unparse(co)
-    i_en, i_cr = t.find("enableDynamicProxyFor(obj)"), t.find("self.createObjectInSimulator(obj)")
+    op_ = co.args.args[1].arg
+    i_en, i_cr = t.find(f"enableDynamicProxyFor({op_})"), t.find(f"self.createObjectInSimulator({op_})")
     if 0 <= i_en < i_cr:
         ctx.ok(R, co, "the dynamic proxy is enabled before the object is created in the simulator")
     else:
         ctx.finding(R, co, "proxy before creation", "Simulation._createObject no longer enables the dynamic proxy before createObjectInSimulator")
-    dis = [s for s in ast.walk(tr) if isinstance(s, ast.For) and unparse(s.iter) == "self.objects" and "disableDynamicProxyFor(obj)" in unparse(s)]
+    dis = [s for s in ast.walk(tr) if isinstance(s, ast.For) and unparse(s.iter) == "self.objects" and isinstance(s.target, ast.Name) and f"disableDynamicProxyFor({s.target.id})" in unparse(s)]
     if dis and any(s in ast.walk(ast.Module(body=tr.finalbody, type_ignores=[])) for s in dis):
         ctx.ok(R, dis[0], "every object of the simulation has its proxy disabled in the cleanup")
     else:
@@ -342,7 +354,18 @@ def check_overrides(ctx, R="C14.override"):
         )
     st = model.func(DS, "DynamicScenario._stop")
     body = [unparse(s) for s in st.body]
-    i_rev = next((i for i, s in enumerate(body) if "obj._revert(oldVals)" in s and "self._overrides.items()" in s), None)
+
+    def _reverts(s_):
+        return (
+            isinstance(s_, ast.For)
+            and unparse(s_.iter) == "self._overrides.items()"
+            and isinstance(s_.target, ast.Tuple)
+            and len(s_.target.elts) == 2
+            and all(isinstance(e, ast.Name) for e in s_.target.elts)
+            and any(unparse(x) == f"{s_.target.elts[0].id}._revert({s_.target.elts[1].id})" for x in s_.body)
+        )
+
+    i_rev = next((i for i, s_ in enumerate(st.body) if _reverts(s_)), None)
     i_end = next((i for i, s in enumerate(body) if "veneer.endScenario(self" in s), None)
     if i_rev is not None and i_end is not None and i_rev < i_end:
         ctx.ok(R, st, "_stop reverts every recorded override before reporting the scenario as ended")
@@ -350,7 +373,23 @@ def check_overrides(ctx, R="C14.override"):
         ctx.finding(R, st, "_stop revert order", "DynamicScenario._stop no longer reverts all of self._overrides before veneer.endScenario")
     ov = model.func(OT, "Constructible._override")
     rv = model.func(OT, "Constructible._revert")
-    if "oldVals[prop] = getattr(self, prop)" in unparse(ov) and "return oldVals" in unparse(ov) and "object.__setattr__(self, prop, val)" in unparse(rv):
+    rec = [r.value.id for r in lib.returns_of(ov) if isinstance(r.value, ast.Name)]
+    recorded = bool(rec) and any(
+        isinstance(n, ast.Assign)
+        and isinstance(n.targets[0], ast.Subscript)
+        and unparse(n.targets[0].value) == rec[0]
+        and unparse(n.value) == f"getattr(self, {unparse(n.targets[0].slice)})"
+        for n in walk_local(ov)
+    )
+    restored = any(
+        isinstance(l, ast.For)
+        and isinstance(l.target, ast.Tuple)
+        and len(l.target.elts) == 2
+        and unparse(l.iter) == f"{rv.args.args[1].arg}.items()"
+        and any(unparse(x) == f"object.__setattr__(self, {unparse(l.target.elts[0])}, {unparse(l.target.elts[1])})" for x in l.body)
+        for l in walk_local(rv)
+    )
+    if recorded and restored:
         ctx.ok(R, ov, "Object._override records the previous value of every overridden property and _revert writes them back")
     else:
         ctx.finding(R, ov, "Object._override record", "Constructible._override/_revert no longer record and restore the previous value of each overridden property")
